@@ -3590,6 +3590,8 @@ namespace bloch::runtime {
         // take the scope out first so the stack is consistent while that happens.
         auto dying = std::move(m_env.back());
         m_env.pop_back();
+        // last declared, first destroyed (not the hash table's order, which depends on the names)
+        for (auto it = dying.order.rbegin(); it != dying.order.rend(); ++it) dying.vars.erase(*it);
     }
 
     void RuntimeEvaluator::flushEchoes() {
